@@ -61,6 +61,33 @@ class View:
 NOVAL = object()
 
 
+class Memo:
+    """memorize(): "an iterator over collection that memorizes already iterated values ... can be
+    used for iterating over collection several times".  Every iteration sees the whole source,
+    however many iterations are alive at once: all cursors read one shared buffer by position."""
+    def __init__(self, source):
+        self.source, self.buffer = source, []
+        self._own = None
+
+    def __iter__(self):
+        def cursor():
+            i = 0
+            while True:
+                if i == len(self.buffer):
+                    try:
+                        self.buffer.append(next(self.source))
+                    except StopIteration:
+                        return
+                yield self.buffer[i]
+                i += 1
+        return cursor()
+
+    def __next__(self):            # it is an iterator itself as well
+        if self._own is None:
+            self._own = iter(self)
+        return next(self._own)
+
+
 def is_int(x):
     return isinstance(x, int) and not isinstance(x, bool)
 
@@ -242,6 +269,8 @@ def bad_receiver(o):
 
 def it(o, ordered=True):
     """iterate a receiver declared Iterable(): lazily, once"""
+    if isinstance(o, Memo):
+        return iter(o)            # a fresh cursor
     if isinstance(o, DSet):
         if ordered and len(o) > 1:
             raise OOD()
@@ -355,6 +384,8 @@ class Ref:
     def len(self, o, a):
         if isinstance(o, str):
             raise OOD()
+        if isinstance(o, Memo):
+            return sum(1 for _ in o)
         if isinstance(o, (tuple, list, frozenset, dict)):
             return len(o)
         if isinstance(o, View) and o.kind != 'values':
@@ -371,7 +402,7 @@ class Ref:
             raise OOD()
         if isinstance(o, (tuple, list, frozenset)) or isinstance(o, View) and o.kind != 'values':
             return o
-        return it(o)
+        return Memo(it(o))
 
     def _reduce(self, o, f, init):
         src = it(o)
@@ -661,10 +692,12 @@ class Ref:
         src = it(o, ordered=False)
         if isinstance(o, (tuple, list, frozenset)) or isinstance(o, View) and o.kind != 'values':
             return a['vs'] if len(o if not isinstance(o, View) else o.d) == 0 else o
-        got = list(itertools.islice(src, 1))
-        if not got:
-            return a['vs']
-        return itertools.chain(got, src)
+        if isinstance(o, Memo):
+            src = iter(o)
+        m = Memo(src)              # "collection = memorize(collection)": probed once, then handed on whole
+        for _ in m:
+            return m
+        return a['vs']
 
     def generate(self, o, a):
         if is_iterator(o) or isinstance(o, (Ordering, View, DSet)):
@@ -1019,6 +1052,35 @@ class Ref:
             raise OOD()         # an unbound $1 is the expression's own `$`
         return tuple(env.get(str(i + 1)) for i in range(k))
 
+    # ---- a second consumer of the expression's own `$`
+    root = None
+
+    def _root(self):
+        r = self.root
+        if isinstance(r, Memo) or isinstance(r, (tuple, list)) or isinstance(r, frozenset) and not isinstance(r, DSet):
+            return r
+        raise OOD()               # a bare one-shot iterator shared by two consumers: no documented result
+
+    def zipRoot(self, o, a):
+        r = self._root()
+        first = it(o)
+        others = [itertools.islice(it(r), n, None) for n in a['ns']]
+        return zip(first, *others)
+
+    def joinRoot(self, o, a):
+        r = self._root()
+        pred, sel = lam2(a['f2']), lam2(a['g2'])
+        return (sel(x, y) for x in it(o) for y in it(r) if pred(x, y))
+
+    def concatRoot(self, o, a):
+        r = self._root()
+        return itertools.chain(it(o), itertools.islice(it(r), a['n'], None))
+
+    def partialThenFull(self, o, a):
+        r = self._root()
+        head = tuple(itertools.islice(it(r), a['n']))
+        return (head, tuple(it(r)), sum(1 for _ in it(r)))
+
     def __getattr__(self, name):        # 'in' is a keyword
         if name == 'in_':
             def f(o, a):
@@ -1034,9 +1096,13 @@ class Ref:
 REF = Ref()
 
 
-def run_ref(data, ops):
-    """data: runtime value (tuple / FD / frozenset / iterator); returns the finalised result"""
+def run_ref(data, ops, binder=None):
+    """data: runtime value (tuple / FD / frozenset / iterator); returns the finalised result.
+    binder: the op of `let(binder($)) -> ...` that rebinds `$` (memorize / defaultIfEmpty)"""
     o = data
+    if binder is not None:
+        o = getattr(REF, binder['op'])(o, binder)
+    REF.root = o
     for op in ops:
         name = op['op']
         o = getattr(REF, 'in_' if name == 'in' else name)(o, op)
@@ -1269,6 +1335,14 @@ def render_op(r, a):
         return m(n, *[lit(v) for v in a['vs']])
     if n == 'setCmp':
         return '(%s %s %s)' % (r, ['<', '<=', '>', '>='][min(a['n'], 3)], lit(frozenset(a['vs'])))
+    if n == 'zipRoot':
+        return m('zip', *['$.skip(%s)' % lit(k) for k in a['ns']])
+    if n == 'joinRoot':
+        return m('join', '$', rl2w(a['f2']), rl2w(a['g2']))
+    if n == 'concatRoot':
+        return m('concat', '$.skip(%s)' % lit(a['n']))
+    if n == 'partialThenFull':
+        return '[$.take(%s).toList(), $.toList(), $.len()]' % lit(a['n'])
     if n == 'unpack':
         if a['names']:
             return '(%s.unpack(%s) -> [%s])' % (r, ', '.join(a['names']), ', '.join('$' + x for x in a['names']))
@@ -1276,10 +1350,12 @@ def render_op(r, a):
     raise ValueError(n)
 
 
-def render(ops):
+def render(ops, binder=None):
     r = '$'
     for a in ops:
         r = render_op(r, a)
+    if binder is not None:
+        return 'let(%s) -> %s' % (render_op('$', binder), r)
     return r
 
 
@@ -1318,7 +1394,7 @@ def op_json(a, enc):
             j[k] = None if v is None else lam_json(v, enc)
         elif k in ('f2', 'g2'):
             j[k] = None if v is None else lam2_json(v, enc)
-        elif k in ('n', 'm', 'k', 'b', 'b2', 'name', 'names', 'alias'):
+        elif k in ('n', 'm', 'k', 'b', 'b2', 'name', 'names', 'alias', 'ns'):
             j[k] = v
         elif k in ('v', 'w'):
             j[k] = enc(v)
